@@ -10,7 +10,9 @@
    observable (which error, which gas) the order is geth's.
 
    The recursive call into a child frame is the Section variable [rec]; Interp.v
-   ties the knot by recursion on the remaining call depth.
+   ties the knot by recursion on the remaining call depth.  Keccak-256 is the field
+   [fk_keccak] of the fork record (a parameter of every theorem; the executable
+   instance is Keccak.Sponge.keccak256, see EVM/Forks.v).
 
    Failure modes.  [S_Halt e] are the EVM's own exceptional halts.  [S_Fault k] are
    NOT EVM behaviour: they stand for what would be a Go run-time panic (slice out
@@ -22,7 +24,7 @@
      evm_call evm_create step create_address create2_address
    No proofs in this file. *)
 From Coq Require Import List NArith ZArith Arith Bool.
-From GV Require Import Lib.Bytes Keccak.Sponge EVM.Jumpdest EVM.Word256 EVM.Memory EVM.Gas.
+From GV Require Import Lib.Bytes EVM.Jumpdest EVM.Word256 EVM.Memory EVM.Gas.
 From GV Require Import EVM.State EVM.Instr.
 Import ListNotations.
 Local Open Scope N_scope.
@@ -86,14 +88,15 @@ Definition rlp_uint (n : N) : list N :=
   if n =? 0 then [128] else if n <? 128 then [n]
   else let b := be_bytes n in (128 + lenN b) :: b.
 (* crypto.CreateAddress: keccak256(rlp([sender, nonce]))[12:] *)
-Definition create_address (sender nonce : N) : N :=
+Definition create_address (keccak256 : list N -> list N) (sender nonce : N) : N :=
   let payload := 148 :: addr_bytes sender ++ rlp_uint nonce in
   be_decode (skipn 12 (keccak256 ((192 + lenN payload) :: payload))).
 (* crypto.CreateAddress2: keccak256(0xff ++ sender ++ salt ++ keccak256(init))[12:] *)
-Definition create2_address (sender salt : N) (init : list N) : N :=
+Definition create2_address (keccak256 : list N -> list N) (sender salt : N) (init : list N) : N :=
   be_decode (skipn 12 (keccak256 (255 :: addr_bytes sender ++ word_bytes salt ++ keccak256 init))).
 
-Definition blockhash_of (n : N) : N := be_decode (keccak256 (word_bytes n)).
+(* the block-hash oracle of the correspondence harness: keccak256 of the 32-byte number *)
+Definition blockhash_of (keccak256 : list N -> list N) (n : N) : N := be_decode (keccak256 (word_bytes n)).
 
 (* ------------------------------------------------------------------ *)
 Section Step.
@@ -257,13 +260,13 @@ Definition env1_sem (c : ctx) (f : frame) (x : env1) (a : N) : N :=
       if 2 ^ 64 <=? a then 0 else
       let upper := e_number e in
       let lower := if upper <? 257 then 0 else upper - 256 in
-      if (lower <=? a) && (a <? upper) then blockhash_of a else 0
+      if (lower <=? a) && (a <? upper) then blockhash_of (fk_keccak (e_fork e)) a else 0
   | E_BLOBHASH =>
       if a <? lenN (e_blobhashes e) then nth (N.to_nat a) (e_blobhashes e) 0 else 0
   | E_TLOAD => get_transient (f_w f) (c_addr c) a
   end.
 
-Definition acct_sem (w : world) (x : acct1) (a : N) : N :=
+Definition acct_sem (keccak256 : list N -> list N) (w : world) (x : acct1) (a : N) : N :=
   match x with
   | A_BALANCE => get_balance w a
   | A_EXTCODESIZE => lenN (get_code w a)
@@ -439,8 +442,9 @@ Definition exec_create (c : ctx) (f : frame) (is2 : bool) : frame + fresult :=
            | None => fault_ f F_MemOOB
            | Some init =>
                let this := c_addr c in
-               let addr := if is2 then create2_address this salt init
-                           else create_address this (get_nonce (f_w f1) this) in
+               let kec := fk_keccak (e_fork (c_env c)) in
+               let addr := if is2 then create2_address kec this salt init
+                           else create_address kec this (get_nonce (f_w f1) this) in
                let fwd := all_but_one_64th (f_gas f1) in
                match charge (f_gas f1) fwd with
                | None => oog f                                  (* cannot happen *)
@@ -478,7 +482,7 @@ Definition exec_instr (c : ctx) (f : frame) (i : instr) : frame + fresult :=
       bindf (pay_mem f (calc_mem_size off size) (keccak_gas size))
         (fun f1 => match mem_read (f_mem f1) off size with
                    | None => fault_ f F_MemOOB
-                   | Some d => next f1 (be_decode (keccak256 d) :: r)
+                   | Some d => next f1 (be_decode (fk_keccak (e_fork e) d) :: r)
                    end)
   | I_env0 x, r => next f (env0_sem c f x :: r)
   | I_env1 x, a :: r => next f (env1_sem c f x a :: r)
@@ -487,7 +491,7 @@ Definition exec_instr (c : ctx) (f : frame) (i : instr) : frame + fresult :=
       let '(extra, w1) := access_account w addr in
       match charge (f_gas f) extra with
       | None => oog f
-      | Some g => next_w (set_gas f g) (acct_sem w1 x addr :: r) w1
+      | Some g => next_w (set_gas f g) (acct_sem (fk_keccak (e_fork e)) w1 x addr :: r) w1
       end
   | I_copy x, mo :: so :: len :: r =>
       if 2 ^ 64 <=? len then oog f else
